@@ -434,6 +434,8 @@ pub(crate) mod verif_probe {
             settings.plugins = Some(plugins);
         }
         if v["query_parser"].as_bool() == Some(true) { settings.query_parser_enabled = true; settings.query_parser_read_write_splitting = true; }
+        if let Some(r) = v["shard_id_regex"].as_str() { settings.shard_id_regex = Some(regex::Regex::new(r).unwrap()); }
+        if let Some(r) = v["sharding_key_regex"].as_str() { settings.sharding_key_regex = Some(regex::Regex::new(r).unwrap()); }
         let pool = ConnectionPool {
             databases: Arc::new(all_pools), addresses: Arc::new(all_addrs),
             banlist: Arc::new(RwLock::new((0..nshards).map(|_| HashMap::new()).collect())), config_hash: 0,
@@ -520,6 +522,8 @@ pub(crate) mod verif_probe {
         tokio::time::sleep(Duration::from_millis(30)).await;
         let clients_after_a: Vec<Value> = crate::stats::get_client_stats().values().filter(|c| c.pool_name() == db)
             .map(|c| json!([format!("{}", c.state.load(Ordering::Relaxed)), c.transaction_count.load(Ordering::Relaxed), c.query_count.load(Ordering::Relaxed)])).collect();
+        let servers_after_a: Vec<Value> = crate::stats::get_server_stats().values().filter(|s| s.pool_name() == db)
+            .map(|s| json!(format!("{}", s.state.load(Ordering::Relaxed)))).collect();
         // where a CancelRequest with a client key would be sent right now (A idle or gone)
         #[cfg(not(verif_probe_minimal))]
         let csmap_after_a: Vec<Value> = csmap.lock().iter().map(|(k, v)| json!([k.0, k.1, v.0, v.1])).collect();
@@ -548,7 +552,7 @@ pub(crate) mod verif_probe {
             "delivered": r.delivered.iter().map(|d| hexs(d)).collect::<Vec<_>>(), "status_after": r.status_after,
             "before": {"status": r.before.status, "copy_in": r.before.copy_in, "dirty_set": r.before.dirty_set, "role_set": r.before.role_set,
                        "sql_prepared": r.before.sql_prepared, "named": r.before.named, "unsynced": r.before.unsynced, "params": r.before.params}})).collect();
-        json!({"clients_after_a": clients_after_a, "csmap_after_a": csmap_after_a, "a_result": a_task_result, "a_out": hexs(&a_out), "b_out": hexs(&b_out), "b_state": b_state, "reqs": reqs, "paused_at_end": paused_at_end})
+        json!({"clients_after_a": clients_after_a, "servers_after_a": servers_after_a, "csmap_after_a": csmap_after_a, "a_result": a_task_result, "a_out": hexs(&a_out), "b_out": hexs(&b_out), "b_state": b_state, "reqs": reqs, "paused_at_end": paused_at_end})
     }
 
     /// Client A runs `prep` queries (simple protocol), then sends the raw `trigger` bytes and is awaited;
@@ -875,12 +879,19 @@ pub(crate) mod verif_probe {
                     let (drain_tx, mut drain_rx) = tokio::sync::mpsc::channel::<i32>(64);
                     let shutdown_rx = shutdown_tx.subscribe();
                     let csm2 = csmap.clone();
+                    let scenario = vv["scenario"].as_str().unwrap_or("terminate").to_string();
+                    // "late_*": the accept loop has seen SIGINT (admin_only = true) and this is a NEW non-admin client
+                    let late = scenario.starts_with("late");
                     let ep = tokio::spawn(async move {
                         let (sock, _) = front.accept().await.unwrap();
-                        crate::client::client_entrypoint(sock, csm2, shutdown_rx, drain_tx, false, None, false).await
+                        crate::client::client_entrypoint(sock, csm2, shutdown_rx, drain_tx, late, None, false).await
                     });
-                    let scenario = vv["scenario"].as_str().unwrap_or("terminate").to_string();
                     let mut c = tokio::net::TcpStream::connect(("127.0.0.1", front_port)).await.unwrap();
+                    if scenario == "late_ssl_declined" {
+                        // libpq's sslmode=prefer: SSLRequest first; no certificate configured, the pooler answers 'N', the client goes on in plain text
+                        let _ = c.write_all(&[0, 0, 0, 8, 0x04, 0xd2, 0x16, 0x2f]).await;
+                        let _ = timeout(Duration::from_secs(3), c.read_u8()).await;
+                    }
                     let user_for_startup = if scenario == "bad_startup" { "nobody".to_string() } else { usern.clone() };
                     let mut body = BytesMut::new();
                     body.put_i32(196608);
@@ -907,7 +918,7 @@ pub(crate) mod verif_probe {
                     let res = match timeout(Duration::from_secs(5), ep).await { Ok(Ok(Ok(()))) => "ok".to_string(), Ok(Ok(Err(e))) => format!("err: {:?}", e), _ => "other".to_string() };
                     let mut vals = vec![];
                     while let Ok(x) = drain_rx.try_recv() { vals.push(x); }
-                    json!({"scenario": scenario, "logged_in": logged_in, "result": res, "drain": vals, "sum": vals.iter().sum::<i32>()})
+                    json!({"scenario": scenario, "logged_in": logged_in, "admitted": late && logged_in, "result": res, "drain": vals, "sum": vals.iter().sum::<i32>()})
                 }).await });
                 Some(match r { Ok(x) => x, Err(_) => json!({"error": "scenario timed out"}) })
             }
@@ -968,6 +979,74 @@ pub(crate) mod verif_probe {
                     let conns = log.lock().conns;
                     json!({"pool_size": n, "held_at_once": max_held, "held_at_once_min": min_held, "backend_connections": conns})
                 }))
+            }
+            "config_identity" => {
+                // two definitions that differ in exactly one field (at `path` inside a fully populated config::Pool, or a field of General /
+                // Config): what do ==, Pool::hash_value and Config == say?
+                fn merge(a: &mut Value, b: &Value) {
+                    match (a, b) {
+                        (Value::Object(a), Value::Object(b)) => { for (k, v) in b { merge(a.entry(k.clone()).or_insert(Value::Null), v); } }
+                        (a, b) => { *a = b.clone(); }
+                    }
+                }
+                fn at<'a>(v: &'a mut Value, path: &[Value]) -> Option<&'a mut Value> {
+                    let mut cur = v;
+                    for p in path {
+                        cur = match p { Value::String(s) => cur.get_mut(s.as_str())?, Value::Number(n) => cur.get_mut(n.as_u64()? as usize)?, _ => return None };
+                    }
+                    Some(cur)
+                }
+                let mut base = serde_json::to_value(crate::config::Pool::default()).unwrap();
+                merge(&mut base, &v["pool_patch"]);
+                let a: crate::config::Pool = match serde_json::from_value(base.clone()) { Ok(p) => p, Err(e) => return Some(json!({"error": format!("base pool: {}", e)})) };
+                let base = serde_json::to_value(&a).unwrap();
+                let wrap = |p: &crate::config::Pool, g: Option<crate::config::General>, path: Option<String>| {
+                    let mut c = crate::config::Config::default();
+                    c.pools.clear();
+                    c.pools.insert("db".to_string(), p.clone());
+                    if let Some(g) = g { c.general = g; }
+                    if let Some(pa) = path { c.path = pa; }
+                    c
+                };
+                let cands = v["candidates"].as_array().cloned().unwrap_or_default();
+                if let Some(gf) = v["general_field"].as_str() {
+                    let g0 = crate::config::General::default();
+                    let j0 = serde_json::to_value(&g0).unwrap();
+                    for c in &cands {
+                        let mut j = j0.clone();
+                        j[gf] = c.clone();
+                        if let Ok(g1) = serde_json::from_value::<crate::config::General>(j) {
+                            if serde_json::to_value(&g1).unwrap()[gf] != j0[gf] {
+                                let ceq = wrap(&a, Some(g0.clone()), None) == wrap(&a, Some(g1.clone()), None);
+                                return Some(json!({"a": j0[gf], "b": c, "eq": g0 == g1, "hash_eq": false, "config_eq": ceq}));
+                            }
+                        }
+                    }
+                    return Some(json!({"error": "no candidate value fits the field"}));
+                }
+                if let Some(cf) = v["config_field"].as_str() {
+                    let (c0, c1) = match cf {
+                        "path" => (wrap(&a, None, None), wrap(&a, None, Some("other.toml".to_string()))),
+                        "general" => { let mut g = crate::config::General::default(); g.ban_time += 1; (wrap(&a, None, None), wrap(&a, Some(g), None)) }
+                        "plugins" => { let mut c1 = wrap(&a, None, None); c1.plugins = a.plugins.clone(); (wrap(&a, None, None), c1) }
+                        _ => { let mut b = a.clone(); b.default_role = "replica".to_string(); (wrap(&a, None, None), wrap(&b, None, None)) }
+                    };
+                    return Some(json!({"a": cf, "b": cf, "eq": c0 == c1, "hash_eq": false, "config_eq": c0 == c1}));
+                }
+                let path = v["path"].as_array().cloned().unwrap_or_default();
+                for c in &cands {
+                    let mut j = base.clone();
+                    let old = match at(&mut j, &path) { Some(slot) => { let o = slot.clone(); *slot = c.clone(); o } None => return Some(json!({"error": "path not in the sample pool"})) };
+                    if let Ok(b) = serde_json::from_value::<crate::config::Pool>(j) {
+                        let mut jb = serde_json::to_value(&b).unwrap();
+                        let now = at(&mut jb, &path).map(|x| x.clone()).unwrap_or(Value::Null);
+                        if now != old {
+                            let ceq = wrap(&a, None, None) == wrap(&b, None, None);
+                            return Some(json!({"a": old, "b": now, "eq": a == b, "hash_eq": a.hash_value() == b.hash_value(), "config_eq": ceq}));
+                        }
+                    }
+                }
+                Some(json!({"error": "no candidate value fits the field"}))
             }
             "reload_pools" => {
                 // config A: pools keep/change/gone ; config B: keep (identical), change (different), gone removed
